@@ -328,11 +328,20 @@ def _maybe_persist_memory(
                 arr.persist()
 
 
+class _LoadedOutputs(NamedTuple):
+    """Outputs (one per output name) that were found in the store instead of being computed."""
+
+    values: tuple[Any, ...]
+
+
 def _dump_single_output(
     func: PipeFunc,
     output: Any,
     store: dict[str, StoreType],
 ) -> tuple[Any, ...]:
+    if isinstance(output, _LoadedOutputs):
+        # Already stored and already picked per output name (do not apply the `output_picker` again)
+        return output.values
     if isinstance(func.output_name, tuple):
         new_output = []  # output in same order as func.output_name
         for output_name in func.output_name:
@@ -783,7 +792,7 @@ def _execute_single(
     # Load the output if it exists
     output, exists = _load_from_store(func.output_name, store, return_output=True)
     if exists:
-        return output
+        return _LoadedOutputs(tuple(output) if isinstance(func.output_name, tuple) else (output,))
 
     # Otherwise, run the function
     _load_arrays(kwargs)
